@@ -113,7 +113,8 @@ def c16_b(ctx: Ctx):
         if add_loops:
             inner = [n for n in ast.walk(add_loops[0]) if isinstance(n, (ast.For, ast.While)) and n is not add_loops[0]
                      and any(isinstance(c, ast.Call) and isinstance(c.func, ast.Attribute) and c.func.attr == "add" for c in ast.walk(n))]
-            rng = [n for n in inner if isinstance(n, ast.For) and canon(n.iter).replace(" ", "") in ("range(1,len(tokens))",)]
+            rng = [n for n in inner if any(isinstance(c, ast.Call) and isinstance(c.func, ast.Attribute) and c.func.attr == "add" and c.args and "tokens[:" in canon(c.args[0]).replace(" ", "")
+                                           for c in ast.walk(n)) and ("len(tokens)" in canon(n.iter if isinstance(n, ast.For) else n.test))]
             if rng:
                 out.append(ctx.ok(R, f, rng[0], "every proper prefix of every path is registered as a node"))
             elif inner:
